@@ -183,7 +183,9 @@ class LocationAction(object):
             # Have we fired too quickly?
             last_fire = max([self.__stats.last_fire] + self.__claimed)
             if last_fire != 0:
-                time_since_last = ts - last_fire
+                # the timestamp of a hit is taken when its event starts; with several threads a hit can reach this point
+                # after a hit that started later, so the difference can be negative
+                time_since_last = abs(ts - last_fire)
                 if time_since_last < self.__fire_period_ns():
                     return False
 
